@@ -258,7 +258,7 @@ def block(draw, env: Env, ret_t: str, depth: int, in_loop: bool, indent: int):
     for _ in range(n):
         kinds = ["assign", "assign", "use", "use"]
         if depth > 0:
-            kinds += ["if", "if", "ifelse", "for", "while", "try", "with", "match", "assert", "walrus"]
+            kinds += ["if", "if", "ifelse", "for", "while", "try", "with", "match", "assert", "walrus", "stored-test", "stored-test"]
         kinds.append("return")
         if in_loop:
             kinds += ["break", "continue"]
@@ -330,6 +330,35 @@ def block(draw, env: Env, ret_t: str, depth: int, in_loop: bool, indent: int):
             if draw(st.booleans()):
                 lines.append(f"{pad}    case _:")
                 lines.append(f"{pad}        use({x})")
+        elif k == "stored-test":
+            # a narrowing test kept in a variable, the tested name possibly rebound (conditionally) before the
+            # variable is branched on
+            if not env.vars:
+                continue
+            x = draw(st.sampled_from(sorted(env.vars)))
+            t = env.vars[x]
+            flag = env.fresh()
+            lines.append(f"{pad}{flag} = {draw(condition(Env({x: t}), 0))}")
+            rebind = draw(st.sampled_from(["none", "cond", "cond", "always", "loop", "other-branch"]))
+            if rebind == "cond":
+                lines += [f"{pad}if cond():", f"{pad}    {x} = {draw(expr(env, t, 1))}"]
+            elif rebind == "always":
+                lines.append(f"{pad}{x} = {draw(expr(env, t, 1))}")
+            elif rebind == "loop":
+                lines += [f"{pad}for _k in it():", f"{pad}    {x} = {draw(expr(env, t, 1))}"]
+            elif rebind == "other-branch":
+                lines += [f"{pad}if cond():", f"{pad}    pass", f"{pad}else:", f"{pad}    {x} = {draw(expr(env, t, 1))}"]
+            env.vars[flag] = "bool"
+            how = draw(st.sampled_from(["if", "ifnot", "assert", "and"]))
+            if how == "assert":
+                lines += [f"{pad}assert {flag}", f"{pad}use({x})"]
+            else:
+                test = {"if": flag, "ifnot": f"not {flag}", "and": f"{flag} and cond()"}[how]
+                lines.append(f"{pad}if {test}:")
+                lines.append(f"{pad}    use({x})")
+                lines += draw(block(Env_copy(env), ret_t, depth - 1, in_loop, indent + 1))
+                if draw(st.booleans()):
+                    lines += [f"{pad}else:", f"{pad}    use({x})"]
         elif k == "assert":
             lines.append(f"{pad}assert {draw(condition(env))}")
         elif k == "walrus":
